@@ -106,3 +106,39 @@ inline double aligned_dispatch(double* x, long stride)
     return aligned_second_column<0>(x, stride);
 }
 }  // namespace SpectraControl
+
+// positive control: a workspace sized by a constructor argument is allocated in the member-initialiser list of a member,
+// before the range check in the outer constructor's body; and a Ref member copied from a `const Ref&` parameter
+namespace SpectraControl {
+struct EagerWorkspace
+{
+    long m_m;
+    Eigen::MatrixXd m_work;
+    EagerWorkspace(long n, long m) : m_m(m), m_work(n, m_m) {}
+};
+struct LateValidation
+{
+    long m_n, m_ncv;
+    EagerWorkspace m_fac;
+    Eigen::VectorXd m_buf;
+    LateValidation(long n, long nev, long ncv) : m_n(n), m_ncv(ncv > n ? n : ncv), m_fac(n, m_ncv)
+    {
+        if (ncv <= nev || ncv > n)
+            throw std::invalid_argument("ncv must satisfy nev < ncv <= n");
+        m_buf.resize(ncv);          // fine: after the guard
+    }
+};
+struct KeepsParameterRef
+{
+    typedef const Eigen::Ref<const Eigen::MatrixXd> ConstGenericMatrix;
+    ConstGenericMatrix m_mat;
+    KeepsParameterRef(ConstGenericMatrix& mat) : m_mat(mat) {}
+    double first() const { return m_mat(0, 0); }
+};
+inline double use_controls(const Eigen::MatrixXd& A)
+{
+    LateValidation v(A.rows(), 1, 2);
+    KeepsParameterRef k(A);
+    return k.first() + double(v.m_ncv);
+}
+}  // namespace SpectraControl
